@@ -10,6 +10,9 @@ AllClasses == {"unterminatedQuote", "strayOperator", "hugeNumber", "negative", "
                "codecName", "repeatedPlaceholder",
                \* second batch (bug hunts): the tokenizer's own failures, exponents beyond C integers, deep nesting, line
                \* continuations, names of builtins where field names are expected
-               "tokenizerBytes", "hugeExponent", "deepNesting", "lineContinuation", "builtinName"}
+               "tokenizerBytes", "hugeExponent", "deepNesting", "lineContinuation", "builtinName",
+               \* a list of twenty thousand items in one cell (code lists of Choice fields, ranges): tokenizing must not take memory
+               \* by the square of the length
+               "longList"}
 FewClasses == {"unterminatedQuote", "hugeNumber", "nan", "commaOnly", "badRegex", "nul", "strayOperator", "nonAscii"}
 =============================================================================
